@@ -274,7 +274,7 @@ class EvalMixin:
                         nxt.append((s3, acc + [v]))
                 cur = nxt
             for s2, acc in cur:
-                out.append((s2, ListV(tuple(acc), not closed, False)))
+                out.append((s2, ListV(tuple(acc), not closed, bool(isinstance(it, ListV) and it.nonempty and not gen.ifs and len(node.generators) == 1))))
         return out
 
     def e_ListComp(self, node, st, abrupt):
